@@ -56,86 +56,114 @@ def r1(ctx):
         raise mir.AnchorMissing("type alias store::fs::tables::RecordsId not found")
     shape = tables.norm(al["ty"])
     ctx.check(shape == "(&[u8; 32], &[u8; 32], &[u8])", "C08.R1", "store::fs::tables::RecordsId", "key-shape", "records key type = %s" % shape, None)
-    # constructor appends namespace, author, key in this order
-    n = f.body("sync::RecordIdentifier::new")
+    # ---- the id layout, evaluated (K6'): constructor, accessors, row <-> entry maps
+    from . import feval as E, coll
+    from .C09 import _rng
+    RI = "sync::RecordIdentifier"
+    L = 70     # an id of 70 bytes: 32 + 32 + 6
+
+    def label_args(t, names):
+        """callee(param=value, ...) with the callee's own parameter names"""
+        cp = [p for p in mir.callee_paths(t) if p in f.bodies]
+        if not cp:
+            return None
+        cb = f.bodies[cp[0]]
+        return "%s(%s)" % (cp[0].split("::")[-1], ",".join("%s=%s" % (cb.local_name(i + 1) or i, n) for i, n in enumerate(names)))
+
+    def oracle(kind, name, payload, site):
+        if kind != "call":
+            return None
+        t, args, it = payload
+        names = [it.tokname(a) for a in args]
+        full = (t["f"].get("full") or "") + (t["f"].get("path") or "")
+        import re as _re
+        m0 = _re.fullmatch(r"id\[(\d+)\.\.(\d+)\]", names[0]) if names else None
+        if name in ("with_capacity", "new") and "BytesMut" in full:
+            return coll.seq("vec", [])
+        if name == "extend_from_slice" and coll.is_seq(it.deref_val(args[0])):
+            d = it.deref_val(args[0])
+            it.write_loc(args[0][1], coll.seq("vec", d[2] + [E.Tok(names[1])]))
+            return E.UNIT
+        if name == "freeze" and coll.is_seq(it.deref_val(args[0])):
+            return it.deref_val(args[0])
+        if name in ("index", "slice", "get") and names and (names[0] == "id" or m0) and len(args) == 2:
+            base, blen = (0, L) if names[0] == "id" else (int(m0.group(1)), int(m0.group(2)) - int(m0.group(1)))
+            r = _rng(E, it, args[1], blen)
+            if r is None or r[0] is None or r[1] is None:
+                raise E.Unsupported("slice of the id with an undetermined range")
+            if not (r[0] <= r[1] <= blen):
+                return E.DIVERGE if name != "get" else E.NONE
+            tok = E.Tok("id[%d..%d]" % (base + r[0], base + r[1]))
+            return E.Some(tok) if name == "get" else tok
+        if name in ("try_into", "try_from") and m0:
+            return E.Ok(args[0]) if int(m0.group(2)) - int(m0.group(1)) == 32 else E.Err(E.Tok("wrong-length"))
+        if name in ("len",) and names and names[0] == "id":
+            return E.Int(L)
+        if name in ("deref", "as_ref", "as_bytes", "into", "from", "clone", "borrow", "as_slice", "to_bytes", "copy_from_slice") and len(args) == 1:
+            return args[0]
+        if name == "len":
+            return E.Tok("len(%s)" % names[0])
+        if callee_matches(t, r"sync::(RecordIdentifier|Record|Entry|SignedEntry|EntrySignature)::(new|from_parts)$") and not state["inline_ctor"]:
+            la = label_args(t, names)
+            if la:
+                return E.Tok(la)
+        if name == "from_bytes" and "Signature" in full:
+            return E.Tok("signature(%s)" % names[0])
+        return None
+    state = {"inline_ctor": True}
+    n = f.body(RI + "::new")
     ctx.touch(n)
-    ext = [(bi, t) for bi, t in n.calls() if t["f"].get("name") == "extend_from_slice"]
-    ext.sort(key=lambda x: len(n.dominators()[x[0]]))
-    seq = []
-    for bi, t in ext:
-        s = set()
-        for o in leaves(n, t["a"][1]):
-            if o.kind == "arg":
-                s.add(o.data[1])
-        seq.append("|".join(sorted(s)))
-    ctx.check(seq == ["namespace", "author", "key"], "C08.R1", n.path, "append-order", "bytes appended: %s" % seq, n.sp)
-    # accessors read the ranges in component order
-    for path in ("sync::RecordIdentifier::to_byte_tuple", "sync::RecordIdentifier::as_byte_tuple"):
-        b = f.body(path)
-        ctx.touch(b)
-        tup = [s for _, _, s in b.statements() if s["k"] == "assign" and s["p"]["l"] == 0 and s["r"][0] == "agg" and s["r"][1][0] == "tuple"]
-        seq = []
-        if len(tup) == 1:
-            for op in tup[0]["r"][2]:
-                seq.append("|".join(sorted(_const_defs(b, op))))
-        ctx.check(seq == ["NAMESPACE_BYTES", "AUTHOR_BYTES", "KEY_BYTES"], "C08.R1", path, "component-ranges-in-order", "tuple components read ranges %s" % seq, b.sp)
-    for path, const in (("sync::RecordIdentifier::namespace", "NAMESPACE_BYTES"), ("sync::RecordIdentifier::author", "AUTHOR_BYTES"), ("sync::RecordIdentifier::key", "KEY_BYTES")):
-        b = f.body(path)
-        ctx.touch(b)
-        cs = set()
-        for bi, t in b.calls():
-            if t["f"].get("name") in ("index", "slice"):
-                a = t["a"][1]
-                if a[0] == "const" and "def" in a[1]:
-                    cs.add(a[1]["def"].split("::")[-1])
-        ctx.check(cs == {const}, "C08.R1", path, "reads-%s" % const, "%s" % sorted(cs), b.sp)
-    # into_entry maps component i to component i
+    try:
+        ret, it_ = E.run_it(f, n.path, [E.Tok("namespace"), E.Tok("author"), E.Tok("key")], {}, oracle)
+        got = E.describe(it_.resolve(ret), f)
+    except E.Unsupported as ex:
+        got = "UNSUPPORTED-FORM: %s" % ex
+    ctx.check(got == "RecordIdentifier([namespace,author,key])", "C08.R1", n.path, "append-order", "RecordIdentifier::new(namespace, author, key) = %s (spec: the bytes of namespace, author, key in this order)" % got, n.sp)
+    want = {"as_byte_tuple": "(id[0..32],id[32..64],id[64..70])", "to_byte_tuple": "(id[0..32],id[32..64],id[64..70])", "namespace": "id[0..32]", "author": "id[32..64]", "key": "id[64..70]", "key_bytes": "id[64..70]"}
+    for acc, w in want.items():
+        b = f.body(RI + "::" + acc)
+        ctx.touch(*f.scope(b.path, prefix="sync::"))
+        try:
+            ret, it_ = E.run_it(f, b.path, [E.href("self")], {"self": E.struct(f, RI, **{"0": E.Tok("id")})}, oracle)
+            got = "PANIC" if (ret is not None and ret[0] == "diverge") else E.describe(it_.resolve(ret), f)
+        except E.Unsupported as ex:
+            got = "UNSUPPORTED-FORM: %s" % ex
+        ctx.check(got == w, "C08.R1", b.path, "component-range", "%s() of a 70-byte id = %s (spec %s: namespace = bytes 0..32, author = 32..64, key = the rest)" % (acc, got, w), b.sp)
+    # into_entry: row -> entry
+    state["inline_ctor"] = False
     ie = f.body("store::fs::into_entry")
     ctx.touch(ie)
-    bi, t = one_call(ie, r"sync::RecordIdentifier::new")
-    comps = [sorted(_fields(ie, a)) for a in t["a"]]
-    ctx.check(comps == [["key.0"], ["key.1"], ["key.2"]], "C08.R1", ie.path, "id=(key.0,key.1,key.2)", "%s" % comps, t["sp"])
-    bi, t = one_call(ie, r"sync::Record::new$")
-    comps = [sorted(_fields(ie, a, view=re.compile(mir.VIEW.pattern[:-2] + r"|into|from)$"))) for a in t["a"]]
-    ctx.check(comps == [["value.4"], ["value.3"], ["value.0"]], "C08.R1", ie.path, "record=(hash=value.4,len=value.3,timestamp=value.0)", "%s" % comps, t["sp"])
-    bi, t = one_call(ie, r"sync::EntrySignature::from_parts$")
-    comps = [sorted(_fields(ie, a)) for a in t["a"]]
-    ctx.check(comps == [["value.1"], ["value.2"]], "C08.R1", ie.path, "signature=(namespace=value.1,author=value.2)", "%s" % comps, t["sp"])
+    key = ("tuple", [E.Tok("k.namespace"), E.Tok("k.author"), E.Tok("k.key")])
+    val = ("tuple", [E.Tok("v.timestamp"), E.Tok("v.namespace_sig"), E.Tok("v.author_sig"), E.Tok("v.len"), E.Tok("v.hash")])
+    try:
+        ret, it_ = E.run_it(f, ie.path, [key, val], {}, oracle)
+        got = E.describe(it_.resolve(ret), f)
+    except E.Unsupported as ex:
+        got = "UNSUPPORTED-FORM: %s" % ex
+    need = ["new(namespace=k.namespace,author=k.author,key=k.key)", "hash=v.hash", "len=v.len", "timestamp=v.timestamp", "namespace_sig=v.namespace_sig", "author_sig=v.author_sig"]
+    ctx.check(all(x in got for x in need), "C08.R1", ie.path, "row-to-entry-map", "into_entry(key, value) = %s; spec: id from the key components in order, record (hash, len, timestamp) and the two signatures from their own value fields" % got, ie.sp)
+    state["inline_ctor"] = True
     fp = f.body("sync::EntrySignature::from_parts")
     ctx.touch(fp)
-    agg = [s for _, _, s in fp.statements() if s["k"] == "assign" and s["r"][0] == "agg" and s["r"][1][0] == "adt" and s["r"][1][1] == "sync::EntrySignature"]
-    ok = False
-    if len(agg) == 1:
-        m = dict(zip(agg[0]["r"][1][4], agg[0]["r"][2]))
-        ok = {o.data[1] for o in leaves(fp, m["namespace_signature"]) if o.kind == "arg"} == {"namespace_sig"} and {o.data[1] for o in leaves(fp, m["author_signature"]) if o.kind == "arg"} == {"author_sig"}
-    ctx.check(ok, "C08.R1", fp.path, "signature-fields-not-swapped", "namespace_signature <- namespace_sig, author_signature <- author_sig", fp.sp)
-    # entry_put value tuple order (timestamp, ns sig, author sig, len, hash)
-    ep = f.body(SI + "entry_put::{closure#0}")
+    try:
+        ret, it_ = E.run_it(f, fp.path, [E.href("ns"), E.href("au")], {"ns": E.Tok("namespace_sig"), "au": E.Tok("author_sig")}, oracle)
+        rv = it_.resolve(ret)
+        got = (E.describe(E.field(f, rv, "sync::EntrySignature", "namespace_signature"), f), E.describe(E.field(f, rv, "sync::EntrySignature", "author_signature"), f))
+    except E.Unsupported as ex:
+        got = ("UNSUPPORTED-FORM: %s" % ex, None)
+    ctx.check(got == ("signature(namespace_sig)", "signature(author_sig)"), "C08.R1", fp.path, "signature-fields-not-swapped", "(namespace_signature, author_signature) = %s" % (got,), fp.sp)
+    # entry_put: entry -> row (value order timestamp, namespace sig, author sig, len, hash), from the evaluated transaction
+    from . import C18
+    got, log = C18.eval_entry_put(f, None)
+    rec = [x for x in log if x[0] == "records" and x[1] == "insert"]
+    okv = False
+    if len(rec) == 1 and rec[0][3]:
+        comps = [c.strip() for c in rec[0][3].strip("()").split(",")]
+        okv = len(comps) == 5 and "timestamp" in comps[0] and "namespace(signature" in comps[1] and "author(signature" in comps[2] and "content_len" in comps[3] and "content_hash" in comps[4]
+    ep = f.body(SI + "entry_put")
     ctx.touch(ep)
-    types = tables.table_types(f)
-    for bi, t in ep.calls():
-        ct = tables.call_table(t, types)
-        if ct and ct[:2] == ("records", "insert"):
-            seq = []
-            for o in trace(ep, t["a"][2]):
-                if o.kind == "agg" and o.data[0][0] == "tuple":
-                    for op in o.data[1]:
-                        names = []
-                        for x in trace(ep, op, through_calls=False):
-                            cur = x
-                            chain = []
-                            depth = 0
-                            while cur is not None and cur.kind == "call" and depth < 5:
-                                chain.append(cur.data["f"].get("name"))
-                                nxt = trace(ep, cur.data["a"][0], through_calls=False) if cur.data["a"] else []
-                                cur = nxt[0] if len(nxt) == 1 else None
-                                depth += 1
-                            names.append(">".join(chain))
-                        seq.append("|".join(sorted(set(names))))
-            want = ["timestamp", "namespace", "author", "content_len", "content_hash"]
-            ok = len(seq) == 5 and all(w in s for w, s in zip(want, seq))
-            ctx.check(ok, "C08.R1", ep.path, "value=(timestamp,ns_sig,author_sig,len,hash)", "value components derive from %s" % seq, t["sp"])
-    ctx.floor("C08.R1", 12)
+    ctx.check(okv, "C08.R1", ep.path, "value=(timestamp,ns_sig,author_sig,len,hash)", "records row written by entry_put: %s" % (rec,), ep.sp)
+    ctx.floor("C08.R1", 11)
 
 
 def eval_get_range(f, order, has_successor=1):
